@@ -304,7 +304,7 @@ def gen_scenario(rng, via="api", runs=2, allow_known=True):
                                  "ending": "\n", "sur_seed": rng.randint(0, 10 ** 9), "members": 0, "module_doc": False,
                                  "same_named_top": False}
     second = truth + "#2"
-    if second not in targets and rng.random() < (0.6 if via == "cli" else 0.15):
+    if second not in targets and rng.random() < (0.6 if via in ("cli", "main") else 0.15):
         # a second file of the truth's kind (whatever the kind): named after the truth on the command line, it is a target
         # like any other; more often than not it already holds a definition (an older copy of the truth)
         targets[second] = {"pre": rng.choice(PRE_STATES + ["stale", "agreeing"]),
@@ -312,7 +312,7 @@ def gen_scenario(rng, via="api", runs=2, allow_known=True):
                            "trailing_newline": True, "ending": "\n", "sur_seed": rng.randint(0, 10 ** 9), "members": 0,
                            "module_doc": False, "same_named_top": False}
     files = None
-    if rng.random() < (0.7 if via == "cli" else 0.2):
+    if rng.random() < (0.8 if via in ("cli", "main") else 0.2):
         # the files carry names of their own (not <kind>.py): in particular the truth need not sort first among the
         # files of its kind
         files = {}
@@ -658,6 +658,40 @@ def run_api(scn, paths, recorder=None, fault=None, home=None):
     return out
 
 
+def run_main(scn, paths, recorder=None, fault=None, home=None):
+    """the command line's entry point called in this process: doctrans.__main__.main(argv) on the argument vector of the
+    command line (argument handling included, no child process, so the layers can be recorded); returns as run_api"""
+    m = impl()
+    argv = cli_argv(scn, paths)
+    buf, ebuf = io.StringIO(), io.StringIO()
+    out = {"calls": None, "argv": argv}
+    ctx = recorder.installed(fault) if recorder is not None else contextlib.nullcontext()
+    old_home = os.environ.get("HOME")
+    if home is not None:
+        os.environ["HOME"] = home
+    try:
+        with ctx, contextlib.redirect_stdout(buf), contextlib.redirect_stderr(ebuf):
+            r = m.main_mod.main(list(argv))
+        out["result"] = [(os.path.basename(k), bool(v)) for k, v in r.items()]
+        out["exception"] = None
+    except SystemExit as e:
+        out["result"] = None
+        out["exception"] = None if e.code in (0, None) else "exit-%s" % (e.code,)
+    except Exception as e:  # noqa
+        out["result"] = None
+        out["exception"] = exc_kind(e)
+        out["exception_text"] = "%s: %s" % (type(e).__name__, e)
+    finally:
+        if home is not None:
+            if old_home is None:
+                os.environ.pop("HOME", None)
+            else:
+                os.environ["HOME"] = old_home
+    out["stdout"] = buf.getvalue()
+    out["stderr"] = ebuf.getvalue()[-600:]
+    return out
+
+
 def run_cli(argv, cwd=None, timeout=120, extra_env=None):
     env = dict(os.environ, PYTHONPATH=REPO, PYTHONHASHSEED="0")
     env.pop("DOCTRANS_LINE_LENGTH", None)
@@ -684,7 +718,7 @@ def run_scenario(scn, record=True):
                        "result": None}
             else:
                 rec = Recorder() if record else None
-                run = run_api(scn, paths, rec, home=root)
+                run = (run_main if scn["via"] == "main" else run_api)(scn, paths, rec, home=root)
                 if rec is not None:
                     rec_calls.append(rec.calls)
             runs.append(run)
@@ -701,7 +735,7 @@ def run_scenario(scn, record=True):
                 calls = None
             else:
                 rec = Recorder() if record else None
-                run = run_api(scn, paths, rec, home=root)
+                run = (run_main if scn["via"] == "main" else run_api)(scn, paths, rec, home=root)
                 calls = rec.calls if rec is not None else None
             edit = {"gold_ir": gold2, "run": run, "before": before, "after": snapshot(root), "calls": calls}
         return {"scn": scn, "edit": edit, "proj": {k: v for k, v in proj.items() if k != "paths"}, "paths": {k: os.path.basename(v) for k, v in paths.items()},
